@@ -1,7 +1,8 @@
+import CircBuf.Lemmas.Tie.IterTie
 import CircBuf.Lemmas.Tie.Swap
 import CircBuf.Props.C11
 /-!
-# C11 — documented panics of `swap`: the theorems of `Props/C11.lean`, restated about the *translated source*
+# C11 — documented panics of `swap` and of the range translation: the theorems of `Props/C11.lean`, restated about the *translated source*
 
 `Generated/Core.lean` is regenerated from `/repo/src/lib.rs` on every run (translator T3,
 `/verif/translate/t3_core.py`).  Each theorem below is the property theorem of the same name
@@ -25,5 +26,17 @@ theorem C11_swap_panics_i_src (s : Sys) (i j : Nat) (hi : ¬ i < s.buf.size) :
 theorem C11_swap_panics_j_src (s : Sys) (i j : Nat) (hi : i < s.buf.size) (hj : ¬ j < s.buf.size) :
     Gen.swap i j s = (.error (.doc "swap_j"), s) := by
   rw [tie_swap_all]; exact C11_swap_panics_j s i j hi hj
+
+theorem C11_range_ok_src (sb eb : Bound) (s : Sys) (hsb : sb.val < W) (heb : eb.val < W)
+    (he : eb.endNat s.buf.size ≤ s.buf.size) (hs : sb.startNat ≤ eb.endNat s.buf.size)
+    (hW : s.buf.size < W) :
+    Gen.translate_range_bounds sb eb s = (.ok (sb.startNat, eb.endNat s.buf.size), s) := by
+  rw [tie_translate_range_bounds _ _ s]; exact C11_range_ok sb eb s hsb heb he hs hW
+
+theorem C11_range_panics_src (sb eb : Bound) (s : Sys) (hsb : sb.val < W) (heb : eb.val < W)
+    (hW : s.buf.size < W)
+    (hbad : s.buf.size < eb.endNat s.buf.size ∨ eb.endNat s.buf.size < sb.startNat) :
+    ∃ k, Gen.translate_range_bounds sb eb s = (.error (.doc k), s) := by
+  rw [tie_translate_range_bounds _ _ s]; exact C11_range_panics sb eb s hsb heb hW hbad
 
 end CircBuf
